@@ -218,13 +218,13 @@ def c06_scripts(c, srv, behs_all, behs_3, behs_deep, rng):
     maps = cyclic(chars, 3)
     singles = sorted({json.dumps(op) for b in behs_all for op in b})
     for i, m in enumerate(maps):
-        for mtu in sorted({23, big}):
+        for mtu in (sorted({23, big}) if not c.quick else [big if i % 2 else 23]):
             head = ["reset"] + ([req(0, [2] + le16(mtu)), req(1, [2] + le16(mtu))] if mtu > 23 else [])
             sc = Scaler(srv, chars, m, {}, 16 * i + mtu, mtu)
             # every single operation of the alphabet on every characteristic (after a write that makes the value differ from its initial one)
             for s in singles:
                 execs.append(head + [sc.line(["wr", 0, 1, 3, 1]), sc.line(json.loads(s)), sc.line(["rd", 1, 1])])
-            picks = behs_deep if not c.quick else behs_deep[i::max(1, len(maps) // 2)][:6]
+            picks = behs_deep[i::len(maps)] if not c.quick else behs_deep[i::max(1, len(maps) // 2)][:6]
             for b in picks:
                 execs.append(head + [sc.line(op) for op in b])
     return execs
@@ -355,9 +355,14 @@ def c09_scripts(c, srv, si, behs_all, behs_3, behs_deep, rng):
     for gi, g in enumerate(c09_groups(len(cc), c.quick)):
         sc = Scaler(srv, chars, {}, {i + 1: cc[p - 1] for i, p in enumerate(g)}, 0, 23)
         # quick tier: every second behaviour of the complete set per group (the groups of all servers together cover it several
-        # times); thorough tier: the complete set on the first group of every server, an eighth of it on every other group
-        part = behs_all[(si + gi) % 2::2] if c.quick else (behs_all + behs_3 if gi == 0 else behs_all[gi % 8::8])
-        for b in part + behs_deep:
+        # times); thorough tier: the complete set (every second server: half of it) on the first group, a 16th on every other group
+        if c.quick:
+            part = behs_all[(si + gi) % 2::2] if gi == 0 else behs_all[gi % 4::4]
+            deep = behs_deep if gi == 0 else behs_deep[gi::4]
+        else:
+            part = ((behs_all if si % 2 else behs_all[::2]) + behs_3) if gi == 0 else behs_all[gi % 16::16]
+            deep = behs_deep if gi == 0 else behs_deep[gi % 4::4]
+        for b in part + deep:
             execs.append(["reset"] + [sc.line(op) for op in b])
     # seeded random sequences over all descriptors and connections (plain random inputs, drawn here)
     for _ in range(6 if c.quick else 80):
@@ -548,6 +553,8 @@ def run(c):
     ddeep = {"C06": 14, "C08": 4, "C09": 12}[prop]
     nsim = {"C06": (40, 400), "C08": (30, 200), "C09": (40, 300)}[prop][0 if c.quick else 1]
     behs_deep = generate(c, prop, model.norm_path, ddeep, 2, simulate=nsim)[:nsim]
+    if os.environ.get("VERIF_ATT_SMOKE"):          # development aid: exercise every code path on a few behaviours only
+        behs_all, behs_3, behs_deep = behs_all[::37], behs_3[::301], behs_deep[:5]
     c.sample({"behaviour_bfs": behs_all[len(behs_all) // 2], "behaviour_simulated": behs_deep[0]})
     c.extra["rule"] = ("behaviours: all %d sequences of 2 abstract operations of AttValuesGen (Mode %s)%s + %d simulated ones of length %d, "
                        "encoded per server by checks/att_values.py (Scaler = twin of AttValuesGen!PduOf); random request sequences "
